@@ -49,7 +49,7 @@ STALL = 0.05
 
 def plan(tier, seed):
     n_shards = 8
-    rnd = 60 if tier == 'quick' else 2500
+    rnd = 60 if tier == 'quick' else 1000
     stress = 300 if tier == 'quick' else 20000
     return [{'seed': seed * 1000 + i, 'part': i, 'of': n_shards, 'random': rnd,
              'stress': stress} for i in range(n_shards)]
